@@ -90,8 +90,10 @@ def fingerprint(sc):
     return hashlib.sha256(json.dumps(d, sort_keys=True, default=str).encode()).hexdigest()
 
 
-def trajectory_hash(sc, seed, steps):
-    """seeded run of a fixed pseudo-random action sequence: hash of every observable"""
+def trajectory_hash(sc, seed, steps, pool=None, collect=None):
+    """seeded run of a fixed pseudo-random action sequence: hash of every observable.  With `pool` (states of an
+    earlier run of the same trajectory), generative_step is called on stored states before every step, the global
+    generator being restored afterwards: a look-ahead must not change what the episode does."""
     h = hashlib.sha256()
     env = nasim.NASimEnv(sc, fully_obs=False, flat_actions=True, flat_obs=True)
     np.random.seed(seed)
@@ -100,6 +102,15 @@ def trajectory_hash(sc, seed, steps):
     n = env.action_space.n
     for i in range(steps):
         a = (i * 7919 + seed * 31) % n
+        if pool:
+            rs = np.random.get_state()
+            for j in range(3):
+                st = pool[(i * 5 + j * 11) % len(pool)]
+                env.generative_step(st, (a + j) % n)
+                env.generative_step(st, ((i + j) * 104729) % n)
+            np.random.set_state(rs)
+        if collect is not None:
+            collect.append(env.current_state.copy())
         o, r, d, t, info = env.step(a)
         h.update(o.tobytes()); h.update(np.float64(r).tobytes()); h.update(bytes([int(d), int(t)]))
         h.update(json.dumps({k: str(v) for k, v in info.items()}, sort_keys=True).encode())
@@ -140,7 +151,10 @@ def main():
         if traj:
             for k, v in orig.items():
                 setattr(np.random, k, v)
-            out["trajectory"] = trajectory_hash(sc, params.get("seed") or 0, traj)
+            seen = []
+            out["trajectory"] = trajectory_hash(sc, params.get("seed") or 0, traj, collect=seen)
+            late = seen[len(seen) // 2:] + seen[-3:]
+            out["trajectory_lookahead"] = trajectory_hash(sc, params.get("seed") or 0, traj, pool=late)
     except AssertionError as e:
         out.update(error="AssertionError", message=str(e)[:200], log=list(LOG))
     except Exception as e:
